@@ -21,6 +21,7 @@ package main
 import (
 	"encoding/json"
 	"fmt"
+	"hash/crc32"
 	"sort"
 	"strings"
 	"time"
@@ -76,7 +77,12 @@ func fmtRow(row core.Row, hdr *core.Header, tbl string) string {
 	var sb strings.Builder
 	fmt.Fprintf(&sb, "table=%q off=%d", tbl, row[0].Off)
 	for _, c := range cols {
-		fmt.Fprintf(&sb, " %s=%q", c, row.GetRaw(hdr, c))
+		v := row.GetRaw(hdr, c)
+		if len(v) > 64 {
+			fmt.Fprintf(&sb, " %s=%q...(%d bytes, crc %08x)", c, v[:16], len(v), crc32.ChecksumIEEE([]byte(v)))
+		} else {
+			fmt.Fprintf(&sb, " %s=%q", c, v)
+		}
 	}
 	return sb.String()
 }
@@ -193,6 +199,9 @@ func alphabet() []opDef {
 		{"nosuch,Next", func() core.Value { return core.SuObjectOf(core.SuStr("nosuch")) }, core.Next},
 		{"data extend x = k + 1 sort k,Next", func() core.Value { return core.SuObjectOf(core.SuStr("data extend x = k + 1 sort k")) }, core.Next},
 		{"data join other sort k,Prev", func() core.Value { return core.SuObjectOf(core.SuStr("data join other sort k")) }, core.Prev},
+		{"wide sort k,Next", func() core.Value { return core.SuObjectOf(core.SuStr("wide sort k")) }, core.Next},
+		{"wide sort k,Prev", func() core.Value { return core.SuObjectOf(core.SuStr("wide sort k")) }, core.Prev},
+		{"{wide k:1},Only", func() core.Value { return qobj("wide", 1) }, core.Only},
 	}
 	for _, g := range gets {
 		g := g
@@ -228,7 +237,7 @@ func alphabet() []opDef {
 	// ---- ITran
 	add("T.Complete", true, "T", func(s *side) string { r := s.T.Complete(); s.T, s.Q = nil, nil; return "result " + r })
 	add("T.Abort", true, "T", func(s *side) string { r := s.T.Abort(); s.T, s.Q = nil, nil; return "result " + r })
-	for _, q := range []string{"data sort k", "data where k > 1", "nosuch", "data extend x = k + 1", "data join other", "other"} {
+	for _, q := range []string{"data sort k", "data where k > 1", "nosuch", "data extend x = k + 1", "data join other", "other", "wide sort k"} {
 		q := q
 		add("T.Query("+q+")", true, "T,!Q", func(s *side) string { s.Q = s.T.Query(q, nil); return "ok" })
 	}
@@ -361,7 +370,7 @@ func (s *side) do(op *opDef) (res string, hang bool) {
 }
 
 func setupDb() *db19.Database {
-	db := db19.CreateDb(stor.HeapStor(8192))
+	db := db19.CreateDb(stor.HeapStor(32 * 1024))
 	db19.StartConcur(db, time.Hour)
 	adm := func(s string) { qry.DoAdmin(db, s, nil) }
 	act := func(s string) {
@@ -378,6 +387,13 @@ func setupDb() *db19.Database {
 	act("insert { k: 2, v: 'two' } into data")
 	adm("create other (k, z) key(k)")
 	act("insert { k: 2, z: 'zwei' } into other")
+	// a table with a dropped column whose old data is still in a large record
+	// (the server strips such data from records of 16 KB and more) and in a
+	// small one
+	adm("create wide (k, gone, v, w) key(k)")
+	act("insert { k: 1, gone: '" + strings.Repeat("g", 12000) + "', v: '" + strings.Repeat("v", 6000) + "', w: 'w1' } into wide")
+	act("insert { k: 2, gone: 'small', v: 'v2', w: 'w2' } into wide")
+	adm("alter wide drop (gone)")
 	return db
 }
 
